@@ -1,0 +1,28 @@
+//go:build verif
+
+package replication
+
+import (
+	"context"
+
+	"github.com/jamf/regatta/regattapb"
+	"github.com/jamf/regatta/storage"
+	"github.com/prometheus/client_golang/prometheus"
+	"go.uber.org/zap"
+)
+
+// Exports for the verification harness in /verif (build tag "verif"); no behaviour.
+
+// VerifProposeBatch runs the worker's proposeBatch for the given table of the engine: the received
+// commands are wrapped into SEQUENCE proposals exactly as a replication round does.
+func VerifProposeBatch(ctx context.Context, e *storage.Engine, table string, commands []*regattapb.ReplicateCommand) (uint64, error) {
+	t, err := e.GetTable(table)
+	if err != nil {
+		return 0, err
+	}
+	f := &workerFactory{engine: e, log: zap.NewNop().Sugar()}
+	f.metrics.replicationIndex = prometheus.NewGaugeVec(prometheus.GaugeOpts{Name: "verif_replication_index"}, []string{"role", "table"})
+	f.metrics.replicationLeased = prometheus.NewGaugeVec(prometheus.GaugeOpts{Name: "verif_replication_leased"}, []string{"table"})
+	w := f.create(table)
+	return w.proposeBatch(ctx, commands, e.GetNoOPSession(t.ClusterID))
+}
